@@ -27,8 +27,13 @@ One == N(0, <<1>>, 0, 0)
 Two == N(0, <<2>>, 0, 0)
 Big == N(0, <<1>>, 33, 0)
 
+\* a null that carries a diagnostic text (what a failed evaluation leaves behind): it is a null like any other
+NullWhy == [k |-> "null", why |-> "diagnostic"]
 Base == <<
-  Null, B(TRUE), B(FALSE),
+  Null, NullWhy, B(TRUE), B(FALSE),
+  \* whole numbers beyond the 32-bit and 64-bit integers (exponent 0, many digits)
+  N(0, <<2, 1, 4, 7, 4, 8, 3, 6, 4, 8>>, 0, 0), N(0, <<2, 1, 4, 9, 4, 8, 3, 6, 4, 9>>, 0, 0), N(1, <<2, 1, 4, 7, 4, 8, 3, 6, 4, 9>>, 0, 0),
+  N(0, <<9, 2, 2, 3, 3, 7, 2, 0, 3, 6, 8, 5, 4, 7, 7, 5, 8, 0, 8>>, 0, 0),
   N(1, <<1>>, 0, 0), N(0, <<>>, 0, 0), N(1, <<>>, 0, 0), One, N(0, <<1>>, 0, 1), N(0, <<1>>, 0, 2), Two, N(0, <<1, 5>>, 0 - 1, 0), Big,
   S(<<>>), S(<<97>>), S(<<98>>), S(<<97, 97>>),
   S(<<57344>>), S(<<65536>>),       \* U+E000 and U+10000: code point order and UTF-16 code unit order differ on this pair
